@@ -8,6 +8,17 @@ NOTES = ("All checks: bin/check <ID> --tier quick|thorough; exit 0 held / 1 VIOL
 NOT_CLAIMED = {}
 
 CHECKS = {
+    "C01": {
+        "text": ("TengoSem.tla/TengoValues.tla are an executable TLA+ reference semantics of the documented language (names, lexical "
+                 "environments, cells, heap with slice aliasing, operator/builtin tables). TLC evaluates every generated program, exploring "
+                 "every map iteration order and marking capacity/range dependent programs 'excluded'; the real Script.Compile/RunContext/"
+                 "GetAll outcome (globals structurally, or error class) must be one of the outcomes TLC found."),
+        "design_ref": "DESIGN.md 5.1, 5.2, 8/C01",
+        "note": ("Trusted: TLC; the harness AST printer and value codec; the transcription of docs/*.md into TengoValues. Model range: "
+                 "|int| < 2^30, dyadic floats, 1-4 byte UTF-8; int64 wrap-around and float rounding are not modelled (programs leaving the "
+                 "range are counted as excluded)."),
+        "technique": "TLA+ reference interpreter evaluated by TLC (all nondeterministic branches) vs real compile+run, per program",
+    },
     "C07": {
         "text": ("TLC checks RunContext.tla (PlusCal model of Compiled.RunContext + VM abort protocol) over all interleavings of "
                  "caller/runner/canceller for every program shape and length <= 8: safety (right return value, <=1 instruction after "
